@@ -370,3 +370,31 @@ Lemma perm_p_in_unit x1 x2 : 0 <= fst (perm_p x1 x2) <= snd (perm_p x1 x2).
 Proof.
   unfold perm_p, two_sided, count_if, zlen. cbn [fst snd]. lia.
 Qed.
+
+(** KNOWN FINDING C13_normal_compare_overflow_panic: samples whose
+    (variance/n)^2 overflows make go-moremath's Welch test panic inside
+    betainc; AssumeNormal.Compare has no result *)
+Definition overflow_x1 : list b64 := [b64_of_ZE 1 (-220); b64_of_ZE 2 (-220); b64_of_ZE 3 (-220)].
+Definition overflow_x2 : list b64 := [b64_of_ZE 1 260; b64_of_ZE 2 260; b64_of_ZE 4 260].
+
+Lemma normal_compare_overflow_panic_refuted :
+  exists x1 x2 t,
+    Forall (fun x => b64_is_finite x = true) (x1 ++ x2)
+    /\ b64_is_nan (w_dof (welch_stats x1 x2)) = true
+    /\ forall uf p_o, compare uf (welch_outcome p_o) ANormal (new_sample x1 t) (new_sample x2 t) = None.
+Proof.
+  exists overflow_x1, overflow_x2, (mkThr f_zero). split; [|split].
+  - repeat constructor.
+  - vm_compute. reflexivity.
+  - intros uf p_o. vm_compute. reflexivity.
+Qed.
+
+(** outside that domain the normal comparison always has a result *)
+Lemma compare_normal_total uf p_o s1 s2 :
+  tcdf_panics (w_dof (welch_stats (s_values s1) (s_values s2)))
+              (w_t (welch_stats (s_values s1) (s_values s2))) = false ->
+  exists c, compare uf (welch_outcome p_o) ANormal s1 s2 = Some c.
+Proof.
+  intros H. cbn [compare]. unfold compare_normal, welch_outcome. rewrite H.
+  destruct (_ || _); [eauto|]. destruct (_ && _); eauto.
+Qed.
